@@ -558,7 +558,29 @@ fn run(p: &Pools, input: &Value) -> Case {
     let (mut has_wide, mut has_img, mut has_glyph, mut has_shadow_edit) = (false, false, false, false);
     let (h0, w0) = (h, w);
     let (mut h, mut w) = (h, w);
+    // reach of Spec.resume_run: a frame of a surface with an image overlap suspends judging, the next
+    // forced repaint resumes it, a later frame is judged again
+    let (mut drawn_ovl, mut suspended, mut was_suspended, mut judged_again) = (false, false, false, false);
     for op in &ops {
+        match op {
+            Op::Frame => {
+                if drawn_ovl {
+                    suspended = true;
+                } else if was_suspended && !suspended {
+                    judged_again = true;
+                }
+                drawn_ovl = false;
+            }
+            Op::Skip => drawn_ovl = false,
+            Op::Clear | Op::Renew | Op::Resize(..) => {
+                if suspended {
+                    was_suspended = true;
+                }
+                suspended = false;
+                drawn_ovl = false;
+            }
+            Op::Draw(_) => {}
+        }
         if let Op::Resize(h2, w2, g) = op {
             h = *h2;
             w = *w2;
@@ -589,6 +611,7 @@ fn run(p: &Pools, input: &Value) -> Case {
             }
             let k = overlap_kinds(&mut env, p, s, h, w);
             kinds = (kinds.0 | k.0, kinds.1 | k.1, kinds.2 | k.2);
+            drawn_ovl = k.0 || k.1;
             for row in s {
                 for i in 1..row.len() {
                     if row[i - 1].k == 0 && env.width(row[i - 1].v) == 2 && row[i] != BLANK {
@@ -659,6 +682,7 @@ fn run(p: &Pools, input: &Value) -> Case {
         ("glyph", has_glyph),
         ("shadow-content", has_shadow_edit),
         ("overlap-class", overlap),
+        ("judged-again-after-overlap", dom && judged_again),
         ("erase-chars", has_ech),
         ("clear", ops.iter().any(|o| matches!(o, Op::Clear))),
         ("renew", ops.iter().any(|o| matches!(o, Op::Renew))),
@@ -1156,6 +1180,31 @@ impl<'a> Gen<'a> {
         }
     }
 
+    /// make an image share a cell with another image or with a wide character (in the domain)
+    fn force_overlap(&mut self, rng: &mut Rng, s: &mut Surf) {
+        let (h, w) = (self.h, self.w);
+        for _ in 0..8 {
+            let before = s.clone();
+            let r = rng.below(h as u64) as usize;
+            let c = rng.below(w as u64) as usize;
+            s[r][c] = C { k: 1, f: self.face(rng), v: rng.below(NIMAGES) as u32 };
+            let r2 = (r + rng.below(2) as usize).min(h - 1);
+            let c2 = if rng.chance(1, 3) { c.saturating_sub(1) } else { (c + rng.below(2) as usize).min(w - 1) };
+            if (r2, c2) != (r, c) {
+                s[r2][c2] = if rng.chance(1, 2) {
+                    C { k: 1, f: self.face(rng), v: rng.below(NIMAGES) as u32 }
+                } else {
+                    C { k: 0, f: self.face(rng), v: *rng.pick(&WIDE) }
+                };
+            }
+            let k = overlap_kinds(&mut self.env, self.p, s, h, w);
+            if (k.0 || k.1) && in_domain(&mut self.env, self.p, s, h, w) {
+                return;
+            }
+            *s = before;
+        }
+    }
+
     fn next_surface(&mut self, rng: &mut Rng, prev: &Surf) -> Surf {
         let mut s = if rng.chance(1, 8) { blank_surf(self.h, self.w) } else { prev.clone() };
         if rng.chance(1, 10) {
@@ -1180,7 +1229,7 @@ impl<'a> Gen<'a> {
 fn gen_history(rng: &mut Rng, p: &Pools) -> Value {
     let h = if rng.chance(1, 3) { 1 + rng.below(2) as usize } else { 1 + rng.below(6) as usize };
     let w = if rng.chance(1, 4) { 1 + rng.below(3) as usize } else { 1 + rng.below(12) as usize };
-    let mode = match rng.below(8) {
+    let mut mode = match rng.below(8) {
         0 => 2,
         1 => 1,
         _ => 0,
@@ -1188,10 +1237,42 @@ fn gen_history(rng: &mut Rng, p: &Pools) -> Value {
     let ood = rng.chance(1, 16);
     let mut g = Gen { p, env: Env::new(p, h, w), h, w, mode, ood };
     let (h0, w0) = (h, w);
-    let n = 1 + rng.below(12) as usize;
+    let mut n = 1 + rng.below(12) as usize;
+    // half of the histories with image overlaps go on without overlaps after a forced repaint: the
+    // frames after it are judged again (Spec.resume_run)
+    let mut resume_at = if mode == 2 && rng.chance(1, 2) { Some(1 + rng.below(n as u64) as usize) } else { None };
     let mut ops: Vec<Op> = vec![];
     let mut prev = blank_surf(h, w);
+    let mut seen_overlap_frame = false;
     while ops.len() < n {
+        if resume_at.is_some() && !seen_overlap_frame && rng.chance(1, 2) {
+            let mut s = g.next_surface(rng, &prev);
+            g.force_overlap(rng, &mut s);
+            let k = overlap_kinds(&mut g.env, p, &s, g.h, g.w);
+            seen_overlap_frame = k.0 || k.1;
+            prev = s.clone();
+            ops.push(Op::Draw(s));
+            ops.push(Op::Frame);
+            continue;
+        }
+        if seen_overlap_frame && resume_at.map(|k| ops.len() >= k).unwrap_or(false) {
+            resume_at = None;
+            mode = rng.below(2) as u8;
+            n = ops.len() + 3 + rng.below(5) as usize;
+            match rng.below(3) {
+                0 => ops.push(Op::Clear),
+                1 => ops.push(Op::Renew),
+                _ => {
+                    let h2 = 1 + rng.below(5) as usize;
+                    let w2 = 1 + rng.below(9) as usize;
+                    ops.push(Op::Resize(h2, w2, gen_screen(rng, p, h2, w2)));
+                    g = Gen { p, env: Env::new(p, h2, w2), h: h2, w: w2, mode, ood };
+                }
+            }
+            g.mode = mode;
+            prev = blank_surf(g.h, g.w);
+            continue;
+        }
         match rng.below(20) {
             0 => ops.push(Op::Clear),
             1 => ops.push(Op::Renew),
